@@ -24,7 +24,7 @@ import RedisVerif.Model.Server
   (harness/build.rs: the arms of the two `match`es, field positions from the `enum` declaration) and
   (ii) from the BINARY (harness/src/route_table.rs: `get_primary_key()` on a probe of every variant
   whose fields are pairwise distinct; which shards adopt the clock when the probe is executed) and
-  compared row by row with `routeTable` (driver ops `ROUTETABLE`, `ROUTEPROBE`; `C03:route-table:*`).
+  compared row by row with `routeTable` (driver ops `ROUTETABLE`, `ROUTEARMS`, `ROUTEPROBE`; `C03:route-table:*`).
   `Props/RouteTable.lean` proves that the table IS the routing of the sharding model
   (`recvOf … = M7.recv R (inject now c)` for every command of the composed node) and that the default
   arm routes by a key the command names — its first.  A new variant, a variant moved to another arm
@@ -237,8 +237,19 @@ def showSel : KeySel → String
   | .tok i => s!"field{i}"
   | .first i => s!"first-of-field{i}"
 
-/-- what the driver prints for `ROUTETABLE`: `Variant:arm:key;…` in table order -/
-def render : String := ";".intercalate (routeTable.map (fun r => s!"{r.ctor}:{showArm r.arm}:{showSel r.sel}"))
+def insertSorted (x : String) : List String → List String
+  | [] => [x]
+  | y :: ys => if x < y then x :: y :: ys else y :: insertSorted x ys
+
+def sortStrings (l : List String) : List String := l.foldr insertSorted []
+
+/-- what the driver prints for `ROUTETABLE`: `Variant:key;…` sorted by variant (the key column: what
+    `get_primary_key` returns) -/
+def render : String := ";".intercalate (sortStrings (routeTable.map (fun r => s!"{r.ctor}:{showSel r.sel}")))
+
+/-- what the driver prints for `ROUTEARMS`: the variants that have an arm of their own in `execute` -/
+def renderArms : String :=
+  ",".intercalate (sortStrings ((routeTable.filter (fun r => r.arm != .primary)).map (·.ctor)))
 
 end RouteTable
 end Shards
